@@ -32,13 +32,21 @@ PROFILES: dict[str, dict[str, Any]] = {
             "await_handle": 0.5, "cancel_task": 0.6, "shield": 1.5, "return": 0.3,
             "catch_mix": 0.6, "start_children": 0.1, "agents": (1, 4), "depth": 4, "max_tasks": 6,
             "deadline_p": 0.35},  # fmt: skip
+    "c06": {"cp": 2, "group": 0.8, "forever": 1.5, "raise": 0.3, "cleanup": 1, "scope": 5,
+            "spawn": 0.2, "cancel": 0.8, "catch_then": 1, "wait": 0.5, "sleep": 7,
+            "await_handle": 0.2, "cancel_task": 0.2, "shield": 1, "return": 0.2,
+            "catch_mix": 0.2, "tscope": 5, "probe": 4, "deadline": 3,
+            "start_children": 0.05, "agents": (0, 3), "depth": 4, "max_tasks": 4,
+            "deadline_p": 0.8},  # fmt: skip
     "c07": {"cp": 5, "group": 4, "forever": 2, "raise": 2, "cleanup": 3, "scope": 2,
             "spawn": 1, "cancel": 2.5, "catch_then": 0.7, "wait": 1, "sleep": 0.5,
             "await_handle": 0.7, "cancel_task": 1, "shield": 0.4, "return": 0.7,
             "catch_mix": 0.3, "start_children": 0.8, "agents": (0, 3), "depth": 3, "max_tasks": 8},  # fmt: skip
 }
 OPS = ["cp", "group", "forever", "raise", "cleanup", "scope", "spawn", "cancel", "catch_then",
-       "wait", "sleep", "await_handle", "cancel_task", "shield", "return", "catch_mix"]  # fmt: skip
+       "wait", "sleep", "await_handle", "cancel_task", "shield", "return", "catch_mix",
+       "tscope", "probe", "deadline"]  # fmt: skip
+GRID = [0, 0.5, 1, 1.5, 2, 3, 4]
 
 
 class Gen:
@@ -50,11 +58,12 @@ class Gen:
         self.ntask = 0
         self.nboom = 0
         self.sids: list[str] = []
+        self.tsids: list[str] = []  # scopes made by timeout helpers (never cancelled explicitly)
         self.tids: list[int] = []
         self.events = ["e0", "e1"]
 
     def pick(self, allowed: list[str]) -> str:
-        ws = [self.w[o] for o in allowed]
+        ws = [self.w.get(o, {"tscope": 0.3, "probe": 0.3, "deadline": 0.2}.get(o, 0)) for o in allowed]
         return self.rng.choices(allowed, ws)[0]
 
     def body(self, depth: int, groups: list[int], in_start: bool = False,
@@ -66,7 +75,7 @@ class Gen:
         for i in range(n):
             allowed = list(OPS)
             if depth >= self.w["depth"]:
-                for o in ("group", "scope", "cleanup", "catch_then", "catch_mix"):
+                for o in ("group", "scope", "cleanup", "catch_then", "catch_mix", "tscope"):
                     allowed.remove(o)
 
             if self.ntask >= self.w["max_tasks"]:
@@ -95,7 +104,7 @@ class Gen:
             if k == "cp":
                 ops.append(["cp", rng.randint(1, 3)])
             elif k == "sleep":
-                ops.append(["sleep", rng.choice([0.5, 1, 2, 4])])
+                ops.append(["sleep", rng.choice([0.5, 1, 1.5, 2, 4])])
             elif k == "forever":
                 ops.append(["forever"])
             elif k == "wait":
@@ -113,7 +122,7 @@ class Gen:
                 self.sids.append(sid)
                 drel = None
                 if rng.random() < self.w.get("deadline_p", 0.15):
-                    drel = rng.choice([0, 0.5, 1, 2, 3])
+                    drel = rng.choice(GRID)
 
                 pre = []
                 if rng.random() < 0.12:
@@ -155,6 +164,20 @@ class Gen:
                             "boom" if rng.random() < 0.3 else "reraise"])  # fmt: skip
             elif k == "catch_then":
                 ops.append(["catch_then", self.body(depth + 1, groups), self.body(depth + 1, groups)])
+            elif k == "tscope":
+                self.nscope += 1
+                helper = rng.choice(["move_on_after", "move_on_at", "fail_after", "fail_at"])
+                sid = ("f" if helper.startswith("fail") else "m") + str(self.nscope)
+                self.tsids.append(sid)
+                val = rng.choice(GRID + [None])
+                ops.append(["tscope", sid, helper, val, rng.random() < 0.2,
+                            self.body(depth + 1, groups)])  # fmt: skip
+            elif k == "probe":
+                ops.append(["probe"])
+            elif k == "deadline":
+                pool = self.sids + [x for x in self.tsids]
+                if pool:
+                    ops.append(["deadline", rng.choice(pool), rng.choice(GRID + [None, -1])])
             elif k == "catch_mix":
                 self.nboom += 1
                 ops.append(["catch_mix", self.body(depth + 1, groups), self.nboom])
@@ -197,7 +220,7 @@ class Gen:
             elif r < 0.82:
                 do = ["shield", rng.choice(targets), rng.random() < 0.5]
             elif r < 0.9:
-                do = ["deadline", rng.choice(targets), rng.choice([0, 1, 2, None])]
+                do = ["deadline", rng.choice(targets + self.tsids), rng.choice([0, 1, 2, None, -1])]
             else:
                 do = ["set", rng.choice(self.events)]
 
